@@ -118,7 +118,9 @@ theorem cross_shard_hop (envS envD : Env) (cS cD : Call) (ctxS ctxS' ctxD ctxD' 
   rw [hwD, Accts.read_write, if_pos ⟨rfl, rfl⟩]
 
 /-- FULL (hash comparison): a successful arrival implies that whatever the destination held under the same token and
-    nonce carried the same hash; contrapositive: a different hash rejects the transfer -/
+    nonce carried the same hash; contrapositive: a different hash rejects the transfer — whatever the call's type and
+    flags: a refund flagged return-after-error that comes home to ANOTHER NFT is refused too (the flag lifts the freeze /
+    pause gate, not the identity of the token; cf. seeded change C08-h) -/
 theorem different_hash_rejected (env : Env) (c : Call) (ctx ctx' : Ctx) (out : VMOutput) (hne : c.caller ≠ c.rcv)
     (tok payload : Bytes) (t cur : Token) (cm tm : MetaData)
     (h0 : c.args[0]? = some tok) (h3 : c.args[3]? = some payload) (hdec : decToken payload = some t)
